@@ -474,20 +474,58 @@ Proof.
   rewrite andb_true_iff, IH, String.eqb_eq. split; [intros [-> ->]; reflexivity | intros E; inversion E; auto].
 Qed.
 
+(** ** the tolerant verdict *)
+
+(** the exact verdict (what the model does) implies the tolerant one *)
+Lemma routed_ok_tol r path o : routed_ok r path o = true -> routed_tol r path o = true.
+Proof.
+  destruct r as [p wp|st]; cbn [routed_ok routed_tol].
+  - destruct (o_trace o) as [|[p' a] t]; [discriminate|]. intros H.
+    change (reaches p wp path ((p', a) :: t))
+      with ((op_eqb p p' && String.eqb a (if wp then path else ""))
+            || (tolerable path (p', a) && reaches p wp path t)).
+    rewrite H. reflexivity.
+  - destruct (o_trace o); [|discriminate]. intros H. cbn [forallb andb]. exact H.
+Qed.
+
+(** what the tolerant verdict means: the expected call is in the trace, after
+    tolerable calls only *)
+Lemma reaches_spec p wp path t :
+  reaches p wp path t = true <->
+  exists pre rest a, t = (pre ++ (p, a) :: rest)%list /\ a = (if wp then path else "") /\
+                     Forall (fun c => tolerable path c = true) pre.
+Proof.
+  induction t as [|c t IH]; cbn [reaches].
+  - split; [discriminate|]. intros (pre & rest & a & E & _). destruct pre; discriminate.
+  - rewrite orb_true_iff, andb_true_iff, IH. split.
+    + intros [E|[T (pre & rest & a & -> & Ha & F)]].
+      * unfold expected_call in E. apply andb_prop in E. destruct E as [E1 E2].
+        destruct c as [p' a']. cbn [fst snd] in *. apply String.eqb_eq in E2.
+        assert (p = p') by (destruct p, p'; try discriminate; reflexivity). subst p'.
+        exists [], t, a'. repeat split; [exact E2|constructor].
+      * exists (c :: pre), rest, a. repeat split; [exact Ha|constructor; assumption].
+    + intros (pre & rest & a & E & Ha & F). destruct pre as [|c' pre].
+      * cbn [app] in E. inversion E; subst c. left. unfold expected_call. cbn [fst snd].
+        rewrite op_eqb_refl, Ha, String.eqb_refl. reflexivity.
+      * cbn [app] in E. inversion E; subst c' t. inversion F; subst. right. split; [assumption|].
+        exists pre, rest, (if wp then path else ""). repeat split; assumption.
+Qed.
+
 (** The model meets the executable specification on every case of the quantifier. *)
 Theorem model_spec_ok : forall s hprefix b q l,
   in_quantifier s hprefix q l = true -> spec_ok s b q l (serve s hprefix b q) = true.
 Proof.
   intros s hprefix b q l HQ. apply in_quantifier_spec in HQ.
   unfold spec_ok. rewrite !andb_true_iff. repeat split.
-  - destruct (plain q) eqn:P; [|reflexivity]. eapply routing; eauto.
+  - destruct (plain q) eqn:P; [|reflexivity]. apply routed_ok_tol. eapply routing; eauto.
   - destruct (is_mkcol (q_meth q)) eqn:M; [|reflexivity].
     destruct (plain q) eqn:P; [|reflexivity]. cbn [andb].
     assert (Hm : q_meth q = MMkcol) by (destruct (q_meth q); try discriminate; reflexivity).
     destruct (mkcol s hprefix b q _ _ _ _ HQ Hm P) as [H3 Hn3].
     destruct (Nat.eqb (List.length (l_rs l)) 3) eqn:E.
     + apply Nat.eqb_eq in E. destruct (H3 E) as [-> ->].
-      rewrite andb_true_iff. split; [reflexivity|]. apply list_eqb_call_spec. reflexivity.
+      cbn [forallb fst read_only negb orb andb mutating filter N.eqb Pos.eqb].
+      apply list_eqb_call_spec. reflexivity.
     + apply Nat.eqb_neq in E. destruct (Hn3 E) as [-> ->]. reflexivity.
   - destruct (is_propfind (q_meth q)) eqn:M; [|reflexivity].
     assert (Hm : q_meth q = MPropfind) by (destruct (q_meth q); try discriminate; reflexivity).
